@@ -31,6 +31,8 @@ type HarnessCfg struct {
 	RealRipemd    func([]byte) []byte
 	Workers       int
 	Params        map[string]int // tier-dependent integer parameters readable through vParam
+	RealBase58    bool           // execute base58.Encode/Decode for real (Int mode) instead of the abstract bijection
+	ModAsCondSub  bool           // (a+b) mod N as conditional subtraction (with a checked side condition)
 }
 
 func DefaultCfg() *HarnessCfg {
